@@ -315,7 +315,11 @@ http_model_string_required(const char * s, const char * what)
 int
 http_model_sscanf(const char * s, const char * fmt, va_list ap)
 {
+#ifdef HTTP_EXP_SSCANF_K
+	int k = HTTP_EXP_SSCANF_K;	/* cost experiments only */
+#else
 	int k = nondet_int();
+#endif
 	int j;
 
 	VERIF_DIRTY(j);
